@@ -92,6 +92,8 @@ class RefPeer:
         def grant_now():
             if self.rx is not rx:
                 return
+            if self.plan.get('silent_after_hold') and h >= 1:
+                return          # the holds are not renewed and no grant follows: the peer has fallen silent
             g = self.grant(rx['n'] - rx['got'], rx['limit'])
             rx['window_end'] = rx['got'] + g
             self.send(R.ref_tp_cm_id(7, rx['sa'], self.addr), R.ref_cts(g, rx['got'] + 1, rx['pgn']))
